@@ -54,8 +54,13 @@ def oracle_chirp(dm, cfq, N, rate, frq):
     out = np.empty(N, dtype=np.complex128)
     mx = 0.0
     for k in range(N):
-        ph = exact_phase(dm, bin_freq(cfq, N, k, rate), frq)
-        mx = max(mx, abs(float(ph)))
+        fk = bin_freq(cfq, N, k, rate)
+        ph = exact_phase(dm, fk, frq)
+        # float64 evaluation of coeff*f*(1/fr - 1/f)^2: besides ~|phase| ulps, the difference of the reciprocals is only known to
+        # 2^-53*(1/fr + 1/f), which the factor 2*coeff*f*|1/fr - 1/f| turns into this many cycles (the conditioning term)
+        fm, rm = fk / 10 ** 6, frq / 10 ** 6
+        cond = K * abs(dm) * 10 ** 6 * fm * 2 * abs(1 / rm - 1 / fm) * (1 / abs(rm) + 1 / abs(fm))
+        mx = max(mx, abs(float(ph)) + float(cond))
         fr = ph - math.floor(ph)
         a = 2 * math.pi * float(fr)
         out[k] = complex(math.cos(a), -math.sin(a))
@@ -71,7 +76,7 @@ def run(ctx):
                 'non-trivial: non-zero crop; distinct by all parameters.')
     ctx.trusted = ['Coq 8.16.1 kernel; vm_compute', 'translator T2 (dispersion literal)', 'scipy.fft = mathematical DFT (numerical validation: '
                    'independent numpy complex128 filter)', 'libm cos/sin', 'astropy unit arithmetic']
-    ctx.assumptions = ['chirp tolerance 1.2e-7 + 2*pi*2^-50*|phase| per bin (complex64 storage + float64 phase rounding); '
+    ctx.assumptions = ['chirp tolerance 1.2e-7 + 8*pi*2^-50*(|phase| + conditioning term 2 coeff f |1/fr-1/f| (1/fr+1/f)) per channel (complex64 storage + float64 phase evaluation); '
                        'cases whose band-edge delay is within 1e-9*(1+|d|) of an integer are regenerated (ceil decided by float noise)']
     ctx.regen()
     built = ctx.build(['Props/C05.vo'])
